@@ -136,6 +136,97 @@ def filter_attr(attr_text, override_derive=None):
     return attr_text, None
 
 
+def desugar_try_once(text):
+    """Rewrite the first postfix `?` in `text` (Rust code) by rustc's desugaring for Result:
+         E?   =>   (match E { Ok(v) => v, Err(e) => return Err(From::from(e)) })
+       Returns (new_text, True) or (text, False) if there is none. Raises ValueError on shapes it does not handle."""
+    toks = rlex.code_toks(rlex.lex(text))
+    qi = None
+    for i, t in enumerate(toks):
+        if t.kind == "punct" and t.text == "?":
+            if i + 1 < len(toks) and toks[i + 1].kind == "ident" and toks[i + 1].text == "Sized":
+                continue
+            qi = i
+            break
+    if qi is None:
+        return text, False
+    # walk back over the postfix expression
+    j = qi - 1
+    start = None
+    while j >= 0:
+        t = toks[j]
+        if t.kind == "punct" and t.text in (")", "]"):
+            depth = 0
+            k = j
+            while k >= 0:
+                if toks[k].kind == "punct" and toks[k].text in rlex.CLOSE:
+                    depth += 1
+                elif toks[k].kind == "punct" and toks[k].text in rlex.OPEN:
+                    depth -= 1
+                    if depth == 0:
+                        break
+                k -= 1
+            if k < 0:
+                raise ValueError("unbalanced before `?`")
+            start = k
+            j = k - 1
+            # what precedes the open bracket: ident / `>` (turbofish) / `!` (macro) => part of the call; else primary (paren expr)
+            if j >= 0 and toks[j].kind == "punct" and toks[j].text == ">":
+                # turbofish ::<..>
+                depth = 0
+                while j >= 0:
+                    if toks[j].text == ">":
+                        depth += 1
+                    elif toks[j].text == "<":
+                        depth -= 1
+                        if depth == 0:
+                            break
+                    j -= 1
+                j -= 1  # now at `::`
+                if toks[j].text != "::":
+                    raise ValueError("unexpected generic args before `?` operand")
+                j -= 1
+            if j >= 0 and toks[j].kind == "punct" and toks[j].text == "!":
+                j -= 1
+            if j >= 0 and toks[j].kind in ("ident",) and toks[j].text not in ("return", "in", "if", "while", "match", "else", "let", "mut", "move"):
+                continue  # the callee / method name: loop handles ident
+            else:
+                break
+        elif t.kind in ("ident", "num", "str", "char"):
+            if t.kind == "ident" and t.text in ("return", "in", "if", "while", "match", "else", "let", "mut", "move", "break"):
+                break
+            start = j
+            j -= 1
+            if j >= 0 and toks[j].kind == "punct" and toks[j].text in (".", "::"):
+                j -= 1
+                continue
+            break
+        elif t.kind == "punct" and t.text == "?":
+            raise ValueError("nested `?` not rewritten yet")
+        elif t.kind == "punct" and t.text == "}":
+            raise ValueError("block-like operand of `?` not supported")
+        else:
+            break
+    if start is None:
+        raise ValueError("could not find operand of `?`")
+    a = toks[start].start
+    b = toks[qi].start
+    operand = text[a:b].rstrip()
+    rep = "(match %s { Ok(__vx_v) => __vx_v, Err(__vx_e) => return Err(From::from(__vx_e)) })" % operand
+    return text[:a] + rep + text[toks[qi].end:], True
+
+
+def desugar_try(text):
+    n = 0
+    while True:
+        text, did = desugar_try_once(text)
+        if not did:
+            return text, n
+        n += 1
+        if n > 200:
+            raise ValueError("desugar_try did not terminate")
+
+
 class Expander:
     def __init__(self, unit_name, tmpl_path, vac=False):
         self.unit = unit_name
@@ -150,6 +241,7 @@ class Expander:
         self.clauses = 0
         self.external_fns = []
         self.vis_narrowed = 0
+        self.pub_fields = 0
         self.after_item = []
 
     def load(self, rel):
@@ -263,6 +355,10 @@ class Expander:
             self.do_struct_projection(rel, src, it, fields, override)
             self.out.add("\n\n", ("tmpl", node["line"]))
             return
+        if it.kind == "struct":
+            self.emit_struct_pub(rel, src, it, override)
+            self.out.add("\n\n", ("tmpl", node["line"]))
+            return
         if override is not None:
             # emit attrs by hand
             pos = it.start
@@ -279,6 +375,70 @@ class Expander:
         for o in self.after_item:
             self.out.add(o + "\n", ("tmpl", node["line"]))
         self.after_item = []
+
+    def emit_struct_pub(self, rel, src, it, override):
+        """Emit a struct verbatim except that every field becomes `pub` (visibility only; lets contracts of
+        trait methods mention fields). Logged once per unit."""
+        toks = it.toks
+        for at, s, e in it.attrs:
+            new, log = filter_attr(at, override if (override is not None and rlex.norm(at).startswith("#[derive")) else None)
+            if log:
+                self.rewrites.append("%s: %s" % (rel, log))
+            self.out.add(new + "\n", ("rewrite", rel, s))
+        # locate field list: first '(' or '{' after name/generics at depth 0
+        k = it.ti_kw
+        while toks[k].text != "struct":
+            k += 1
+        k += 2
+        if toks[k].text == "<":
+            k = rlex.skip_angles(toks, k)
+        while k <= it.ti_end and toks[k].text not in ("(", "{", ";"):
+            if toks[k].text == "<":
+                k = rlex.skip_angles(toks, k)
+                continue
+            k += 1
+        if toks[k].text == ";":
+            self.emit_repo(rel, src, it.kw_start, it.end)
+            return
+        close = rlex.match_close(toks, k)
+        self.emit_repo(rel, src, it.kw_start, toks[k].end)
+        pos = toks[k].end
+        j = k + 1
+        at_field_start = True
+        n = 0
+        while j < close:
+            t = toks[j]
+            if at_field_start:
+                # skip attributes
+                while toks[j].text == "#":
+                    j = rlex.match_close(toks, j + 1) + 1
+                t = toks[j]
+                self.emit_repo(rel, src, pos, t.start)
+                pos = t.start
+                if t.text == "pub":
+                    if toks[j + 1].text == "(":
+                        e = rlex.match_close(toks, j + 1)
+                        pos = toks[e].end
+                        self.out.add("pub", ("rewrite", rel, t.start))
+                        n += 1
+                        j = e + 1
+                    else:
+                        j += 1
+                else:
+                    self.out.add("pub ", ("rewrite", rel, t.start))
+                    n += 1
+                at_field_start = False
+                continue
+            if t.kind == "punct" and t.text in rlex.OPEN:
+                j = rlex.match_close(toks, j)
+            elif t.kind == "punct" and t.text == "<":
+                j = rlex.skip_angles(toks, j) - 1
+            elif t.kind == "punct" and t.text == ",":
+                at_field_start = True
+            j += 1
+        self.emit_repo(rel, src, pos, it.end)
+        if n:
+            self.pub_fields += n
 
     def synth_from_impls(self, rel, src, it):
         """Mechanical simulation of thiserror's `#[from]`: impl From<T> for E { fn from(e) -> E::V(e) }."""
@@ -407,6 +567,8 @@ class Expander:
             elif k == "body_sub":
                 a, b = w[1].split(" => ")
                 spec["bodysubs"].append((a.strip(), b.strip()))
+            elif k == "desugar_try":
+                spec["desugar_try"] = True
             elif k == "loop":
                 n = int(w[1])
                 d = spec["loops"].setdefault(n, {})
@@ -498,6 +660,16 @@ class Expander:
                         ncl += len(spec["loops"][n][kwd])
                 pos = cut
         self.emit_repo(rel, src, pos, it.end)
+        if spec.get("desugar_try"):
+            cnt = 0
+            for sg in self.out.segs[body_seg0:]:
+                if sg.origin[0] == "repo" and "?" in sg.text:
+                    try:
+                        sg.text, n = desugar_try(sg.text)
+                    except ValueError as e:
+                        raise LostAnchor("%s: cannot desugar `?` in %s: %s" % (rel, fnid, e))
+                    cnt += n
+            self.rewrites.append("%s: %d `?` in %s desugared to match/return Err(From::from(e)) (rustc's own desugaring for Result)" % (rel, cnt, fnid))
         if spec["bodysubs"]:
             for a, b in spec["bodysubs"]:
                 hit = 0
@@ -525,6 +697,7 @@ class Expander:
         drop = set()
         header_sub = []
         cattrs = []
+        const_subs = []
         for c in node["children"]:
             w = c["text"].split(None, 1)
             if w[0] == "fn":
@@ -535,6 +708,9 @@ class Expander:
                 keep_all = True
             elif w[0] == "drop":
                 drop |= {x.strip() for x in w[1].split(",")}
+            elif w[0] == "const_sub":
+                a, b = w[1].split(" => ")
+                const_subs.append((a.strip(), b.strip()))
             elif w[0] == "attr":
                 cattrs.append(w[1])
             elif w[0] == "header":
@@ -543,6 +719,7 @@ class Expander:
             else:
                 raise ValueError("%s:%d unknown container directive %r" % (self.tmpl_path, c["line"], c["text"]))
         found = set()
+        used_subs = set()
         # several impl blocks may share a header (e.g. two `impl Foo {` blocks): search all
         emitted_header = False
         for it in cands:
@@ -581,6 +758,15 @@ class Expander:
                         self.do_fn(rel, src, k, None, cname)
                     else:
                         notsel.append(k.name)
+                elif k.kind in ("type", "const") and k.name not in drop and any(re.search(a, src[k.start:k.end]) for a, _ in const_subs):
+                    txt = src[k.toks[k.ti_kw].start:k.end]
+                    txt = re.sub(r"^pub(\([a-z]+\))?\s+", "", txt)
+                    for a, b in const_subs:
+                        if re.search(a, txt):
+                            txt = re.sub(a, b, txt)
+                            self.rewrites.append("%s: const %s rewritten /%s/ => %s" % (rel, k.name, a, b))
+                            used_subs.add(a)
+                    self.out.add("    " + txt + "\n", ("rewrite", rel, k.start))
                 elif k.kind in ("type", "const") and k.name not in drop:
                     self.out.add("    ", ("tmpl", cname))
                     kk = k.toks[k.ti_kw]
@@ -596,6 +782,9 @@ class Expander:
             self._container_external = False
             if notsel:
                 self.skipped.append("%s (%s): %d other fns of this block not extracted in this unit" % (cname, rel, len(notsel)))
+        for a, _ in const_subs:
+            if a not in used_subs:
+                raise LostAnchor("%s: const rewrite %r does not match in `%s`" % (rel, a, sel))
         missing = set(wanted) - found
         if missing:
             raise LostAnchor("%s: `%s` has no fn %s" % (rel, sel, ",".join(sorted(missing))))
@@ -660,6 +849,8 @@ class Expander:
                 continue
             self.out.add(ln + "\n", ("tmpl", i + 1))
             i += 1
+        if self.pub_fields:
+            self.rewrites.append("%d struct fields of extracted structs widened to `pub` (visibility only)" % self.pub_fields)
         if self.vis_narrowed:
             self.rewrites.append("%d extracted `pub` fn/const items narrowed to `pub(crate)` (visibility only)" % self.vis_narrowed)
         return self.out.render()
